@@ -22,6 +22,17 @@ namespace c12
         DimLoop<Shape_, d_ + 1>::touched(m, cells, out);
       }
     }
+    /// number of entities of the part (per dimension below the cell dimension) that lie in the given entity sets
+    static void count_in(const PartT& part, const std::vector<std::set<FEAT::Index>>& ent, std::vector<FEAT::Index>& out)
+    {
+      if constexpr(d_ < Shape_::dimension)
+      {
+        const auto& ts = part.template get_target_set<d_>(); FEAT::Index n = 0;
+        for(FEAT::Index i = 0; i < ts.get_num_entities(); ++i) if(ent[(size_t)d_].count(ts[i])) ++n;
+        out[(size_t)d_] = n;
+        DimLoop<Shape_, d_ + 1>::count_in(part, ent, out);
+      }
+    }
     /// halo entity -> base entity through child-in-parent and parent-in-base target sets
     static void to_base(const PartT& halo, const PartT& cip, const PartT& pib, std::vector<std::vector<FEAT::Index>>& out, std::string& err)
     {
@@ -162,10 +173,13 @@ namespace c12
         else for(int q : pcomm[(size_t)p])
         {
           const PartOf<Shape_>* ph = pn.get_halo(q); if(ph == nullptr) continue; Index expect = 0; const auto& tv = ph->template get_target_set<0>(); for(Index i = 0; i < tv.get_num_entities(); ++i) if(pverts.count(tv[i])) ++expect;
+          std::vector<std::set<Index>> cent((size_t)sd); DimLoop<Shape_, 0>::touched(pm, cells, cent); std::vector<Index> expd((size_t)sd, 0); DimLoop<Shape_, 0>::count_in(*ph, cent, expd);
           const PartOf<Shape_>* hh = sub->get_halo(q);
           if(expect == 0) { VF_CHECK(hh == nullptr || hh->get_num_entities(0) == 0, "extracted patch has a halo towards " << q << " although it shares no vertex with that halo"); continue; }
           VF_CHECK(hh != nullptr, "split_halos=true: the listed cells touch " << expect << " vertices of the parent halo towards " << q << " but the extracted patch has no such halo");
           VF_CHECK(hh->get_num_entities(0) == expect, "halo towards " << q << " of the extracted patch has " << hh->get_num_entities(0) << " vertices, the listed cells touch " << expect << " of the parent halo");
+          for(int d = 1; d < sd; ++d) VF_CHECK(hh->get_num_entities(d) == expd[(size_t)d], "halo towards " << q << " of the extracted patch has " << hh->get_num_entities(d) << " entities of dimension " << d << ", the parent halo has " << expd[(size_t)d] << " in the closure of the listed cells");
+          VF_CHECK(hh->get_num_entities(sd) == 0, "halo towards " << q << " of the extracted patch contains cells");
         }
         // patch mesh-parts (children k >= 0 of the parent were created by the graph overload above)
         Index npatch = 0; for(const auto& kv : sub->get_patch_map()) if(kv.first >= 0 && kv.second) ++npatch;
